@@ -3,6 +3,7 @@ package render
 import (
 	"bufio"
 	"context"
+	"path/filepath"
 	"errors"
 	"fmt"
 	"io"
@@ -249,7 +250,7 @@ func c10World(rc *kernel.RunCtx) {
 				rc.Fail("C10/harness", "no span for %s", o.env.FailedK)
 				break
 			}
-			if te.FileName != "c.templ" || te.Line < span[0] || te.Line > span[1] {
+			if filepath.Base(filepath.ToSlash(te.FileName)) != "c.templ" || te.Line < span[0] || te.Line > span[1] {
 				rc.Fail("C10/expr-error-wrong-position", "expression %s (c.templ lines %d-%d) failed: error reports file %q line %d", o.env.FailedK, span[0], span[1], te.FileName, te.Line)
 				break
 			}
